@@ -1080,3 +1080,84 @@ def _cell_name(c):
     if c[0] == "param":
         return "param#%d" % c[1]
     return "local#%d" % c[1]
+
+
+# ====================================================================== PAN-5
+
+
+def pan5(ctx):
+    r = RuleResult("PAN-5", "the scan cursor handed back through `next_pos` has been advanced past the match (store dominated by SegPos::increment on the stored cursor)", floor=2)
+    lib = ctx.lib
+    n = 0
+    for fpath in ("asca::subrule::SubRule::transform", "asca::subrule::SubRule::substitution"):
+        b = ctx.fn(lib, fpath)
+        cfg = b.cfg
+        # the `next_pos: &mut Option<SegPos>` parameter
+        params = [i + 1 for i, t in enumerate(b.param_tys) if t == "&mut core::option::Option<asca::word::SegPos>"]
+        if not params:
+            raise AnchorMissing("%s has no `&mut Option<SegPos>` parameter" % fpath)
+        pl = params[0]
+        incs = [(i, t) for i, t in b.calls() if (callee_path(t) or "") == "asca::word::SegPos::increment"]
+        k = 0
+        for bi, blk in enumerate(b.blocks):
+            if blk.get("cleanup"):
+                continue
+            for s in blk["s"]:
+                if s["k"] != "assign" or not s["lhs"]["p"] or s["lhs"]["p"][0] != "*":
+                    continue
+                # store through the parameter itself or through a reference derived from it (`Some(next) = next_pos`)
+                root = _deref_root(b, s["lhs"]["l"])
+                if root != pl:
+                    continue
+                if b.local_ty(s["lhs"]["l"]) not in ("&mut asca::word::SegPos", "&mut core::option::Option<asca::word::SegPos>"):
+                    continue
+                n += 1
+                src = s["rv"]["op"]["pl"]["l"] if s["rv"]["k"] == "use" and s["rv"]["op"].get("k") in ("copy", "move") else None
+                hops = 0
+                while src is not None and hops < 4:
+                    d0 = _single_def(b, src)
+                    if d0 is not None and d0.get("k") == "use" and d0["op"].get("k") in ("copy", "move") and not d0["op"]["pl"]["p"]:
+                        src = d0["op"]["pl"]["l"]
+                        hops += 1
+                    else:
+                        break
+                ok = False
+                for i, t in incs:
+                    recv = t["args"][0]["pl"]["l"] if t["args"] and t["args"][0].get("k") in ("copy", "move") else None
+                    d = _single_def(b, recv) if recv is not None else None
+                    tgt = d["pl"]["l"] if d is not None and d.get("k") == "ref" else None
+                    if tgt is not None and src is not None and tgt == src and cfg.dominates(i, bi) and not _loop_between(cfg, i, bi):
+                        ok = True
+                fn = fpath.rsplit("::", 1)[-1]
+                r.inst("%s: `*next = pos` is dominated by `pos.increment(..)` outside the element loop" % fn, short_loc(s["loc"]), "ok" if ok else "report")
+                if not ok:
+                    r.report("PAN-5|%s|#%d" % (fpath, k), short_loc(s["loc"]), fpath,
+                             "the cursor written back to the scan loop is not advanced on every path (no SegPos::increment on it dominates the store): "
+                             "a match that changes nothing is found again at the same position and the scan never ends")
+                k += 1
+    if n < 2:
+        raise AnchorMissing("expected two `*next = pos` stores (deletion, substitution), found %d" % n)
+    return r
+
+
+def _deref_root(b, l, depth=0):
+    if depth > 8:
+        return l
+    if 1 <= l <= b.mir["arg_count"]:
+        return l
+    d = _single_def(b, l)
+    if d is None:
+        return l
+    if d.get("k") == "ref":
+        return _deref_root(b, d["pl"]["l"], depth + 1)
+    if d.get("k") == "use" and d["op"].get("k") in ("copy", "move"):
+        return _deref_root(b, d["op"]["pl"]["l"], depth + 1)
+    return l
+
+
+def _loop_between(cfg, a, b_):
+    """is `a` inside a loop that does not contain b_ (i.e. a runs per element, b_ after the loop)"""
+    for h, body in cfg.loops_containing(a):
+        if b_ not in body:
+            return True
+    return False
